@@ -9,6 +9,8 @@ interpreter with another PYTHONHASHSEED.  Equal seed => equal streams; different
 different streams after 5 steps.  Tripwires installed before quansino is imported count
 calls from package frames into numpy's legacy global functions, `default_rng()` /
 `PCG64()` / `SeedSequence()` without a seed, and the `random` module.
+One Hamiltonian workload uses the shipped refresh's documented `forced` option; seeds
+include pairs that collide under a 32-, 63- or 64-bit truncation.
 """
 from __future__ import annotations
 
